@@ -29,9 +29,11 @@ pub fn rng() -> ThreadRng {
 
 fn draw() -> Outcome {
     // A draw is a seam event and, inside a simulated run, a scheduling point.
-    let (o, active, n) = simctx::with(|c| {
-        let o = c.next_outcome();
-        (o, c.active, c.n_rng)
+    let active = simctx::active();
+    let task = if active { shuttle::current::get_current_task().map(usize::from).unwrap_or(0) } else { 0 };
+    let (o, n) = simctx::with(|c| {
+        let o = c.next_outcome(task);
+        (o, c.n_rng)
     });
     let bits = match o {
         Outcome::U(u) => u.to_bits(),
